@@ -151,7 +151,8 @@ impl Char for u8 {
     }
 
     fn is_whitespace(&self) -> bool {
-        self.is_ascii_whitespace()
+        // `is_ascii_whitespace` leaves out the vertical tab, which `char::is_whitespace` (and `is_newline` below) accept
+        self.is_ascii_whitespace() || *self == b'\x0B'
     }
 
     fn is_newline(&self) -> bool {
